@@ -28,7 +28,15 @@ func enumerateEpochScripts() (scripts int, notifications int, bad *RunResult) {
 						cfg := world.Config{CfgSeed: 1, SchedSeed: 1, NumShards: 1, NumUsers: 2, NumContracts: 1, NumTokens: 2, ActivationEpoch: act, StartEpoch: start, NumDNS: []int{-1, 1, 2}[scripts%3]}
 						var evs []world.Event
 						for i, e := range prefix {
-							evs = append(evs, world.Event{N: len(evs), K: "epoch", Shard: 0, Epoch: e})
+							// timestamps: growing, falling or constant, by script
+							ts := int64(1000 + 100*i)
+							switch (len(prefix) + int(e%7)) % 3 {
+							case 1:
+								ts = int64(1000 - 100*i)
+							case 2:
+								ts = 0
+							}
+							evs = append(evs, world.Event{N: len(evs), K: "epoch", Shard: 0, Epoch: e, PSeed: ts})
 							if i == restartAt {
 								evs = append(evs, world.Event{N: len(evs), K: "restart", Shard: 0})
 							}
